@@ -33,6 +33,9 @@ type models struct {
 	// strings
 	strLens map[*smt.Term]int
 	// faults
+	faultCap    int
+	faultCapSet bool
+	faulted     map[string]int
 	faultBudget map[string]int
 	faultCount  map[string]int
 	// scheduling
@@ -76,6 +79,7 @@ func newModels() *models {
 		counters:    map[string]*BV{},
 		strLens:     map[*smt.Term]int{},
 		faultBudget: map[string]int{},
+		faulted:     map[string]int{},
 		faultCount:  map[string]int{},
 		classes:     map[string][]knownClass{},
 		edges:       map[string]int{},
@@ -157,9 +161,14 @@ func (in *Interp) maybeFault(domain, site string) bool {
 	if in.m.faultBudget[domain] <= 0 {
 		return false
 	}
+	if in.m.faultCapSet && in.m.faultCap <= 0 {
+		return false
+	}
 	in.m.faultCount[domain]++
 	if in.decideN(2, "fault:"+domain+":"+site) == 1 {
 		in.m.faultBudget[domain]--
+		in.m.faultCap--
+		in.m.faulted[domain+":"+site]++
 		in.res.tag(fmt.Sprintf("fault:%s:%s#%d", domain, site, in.m.faultCount[domain]))
 		return true
 	}
